@@ -1,0 +1,9 @@
+//go:build verif
+
+package dagsync
+
+import "github.com/ipld/go-ipld-prime/traversal/selector"
+
+// Test-only accessor for the verification harness (build tag verif).
+
+func VerifRecursionLimit(depth int64) selector.RecursionLimit { return recursionLimit(depth) }
